@@ -39,11 +39,12 @@ type c19Finding struct {
 }
 
 type c19State struct {
-	c        *Ctx
-	findings map[string]*c19Finding
+	c                                                   *Ctx
+	findings                                            map[string]*c19Finding
 	docs, parsed, encEqual, encSkippedComments, rtEqual int
 	withSpread, withInline, lossFree                    int
 	vdocs, vValid, vInvalid, vLossFree                  int
+	vValidatorCrashes                                   int
 	maxJSON, maxRatio                                   int
 	losses                                              map[string]int
 }
@@ -197,6 +198,12 @@ func (s *c19State) batchValidated(pairs [][2]string) {
 		s.vdocs++
 		c.Ev.Case("v"+pairs[i][0]+"\x00"+t, true)
 		if crashed(o) {
+			// is it the validator that crashes / hangs (C02), before any JSON is involved?
+			if v := c.Worker.Map([]string{"jsonrtvv " + impl.HexW([]byte(pairs[i][0])) + " " + impl.HexW([]byte(t))})[0]; crashed(v) {
+				s.vValidatorCrashes++
+				s.vdocs--
+				continue
+			}
 			sig := "json-roundtrip:crash"
 			if strings.HasPrefix(o, "TIMEOUT") || strings.Contains(o, "out of memory") || strings.Contains(o, "killed") {
 				sig = "json-roundtrip:validated-blowup"
@@ -377,7 +384,8 @@ func checkC19(c *Ctx) {
 		"model_encoding_equal_bytes": s.encEqual, "encoding_not_compared_comments": s.encSkippedComments,
 		"model_roundtrip_equal": s.rtEqual, "unvalidated_loss_free": s.lossFree,
 		"validated_documents": s.vdocs, "validated_valid": s.vValid, "validated_invalid": s.vInvalid, "validated_loss_free": s.vLossFree,
-		"validated_max_json_bytes": s.maxJSON, "validated_max_json_over_text_ratio": s.maxRatio,
+		"validator_crashes_before_encoding_owned_by_C02": s.vValidatorCrashes,
+		"validated_max_json_bytes":                       s.maxJSON, "validated_max_json_over_text_ratio": s.maxRatio,
 		"loss_classes": s.losses, "findings_cases": found,
 	}
 	c.Ev.Rule = "a case is one document (unvalidated: compared with the model and judged; validated: judged); distinct = distinct (schema, document) texts"
